@@ -32,6 +32,9 @@ type Param struct {
 	// schema of an override accepts "high" (>= 50); a plain parameter accepts "low".
 	Send     string `json:"send"`
 	Required bool   `json:"required"`
+	// Default: the schema in effect carries a default it accepts. A default stands in for an optional
+	// parameter that is not sent; it never stands in for a required one.
+	Default bool `json:"default,omitempty"`
 }
 
 type Case struct {
@@ -42,7 +45,9 @@ type Case struct {
 	DocSec *[][]string     `json:"doc_sec"`
 	Auth   map[string]bool `json:"auth"` // scheme -> accepted by the callback
 	Opts   int             `json:"opts"` // 1 MultiError, 2 ExcludeRequestBody, 4 ExcludeRequestQueryParams
-	NoAuth bool            `json:"no_auth_func"`
+	// SetDefaults: defaults are written into the request (Options.SkipSettingDefaults off); the verdict is the same
+	SetDefaults bool `json:"set_defaults,omitempty"`
+	NoAuth      bool `json:"no_auth_func"`
 	// PreOpts: when positive, the same request is first validated against the same document with
 	// these option bits (plus 8 = an authentication callback that accepts everything): the judged
 	// validation must go as on a fresh document
@@ -106,6 +111,13 @@ func build(c Case) (*openapi3.T, error) {
 	var pathParams, opParams []any
 	for _, p := range c.Params {
 		mk := func(schema M) M {
+			if p.Default {
+				if _, low := schema["maximum"]; low {
+					schema["default"] = 1.0
+				} else {
+					schema["default"] = 99.0
+				}
+			}
 			pm := M{"name": p.Name, "in": p.In, "schema": schema}
 			if p.Required {
 				pm["required"] = true
@@ -250,7 +262,10 @@ func check(c Case) (o h.Outcome) {
 		req.Header.Set("Cookie", strings.Join(cookies, "; "))
 	}
 	var calls []call
-	opts := &openapi3filter.Options{MultiError: c.Opts&1 != 0, ExcludeRequestBody: c.Opts&2 != 0, ExcludeRequestQueryParams: c.Opts&4 != 0, SkipSettingDefaults: true}
+	opts := &openapi3filter.Options{MultiError: c.Opts&1 != 0, ExcludeRequestBody: c.Opts&2 != 0, ExcludeRequestQueryParams: c.Opts&4 != 0, SkipSettingDefaults: !c.SetDefaults}
+	if c.SetDefaults {
+		o.Class("defaults-written")
+	}
 	if !c.NoAuth {
 		opts.AuthenticationFunc = func(_ context.Context, in *openapi3filter.AuthenticationInput) error {
 			calls = append(calls, call{in.SecuritySchemeName, in.Scopes})
@@ -538,7 +553,9 @@ func enumerate(shard, nshards int, yield func(Case)) {
 				for _, s3 := range sends {
 					for _, body := range []string{"none", "valid", "invalid"} {
 						for opts := 0; opts < 8; opts++ {
-							emit(Case{Params: []Param{{in, "a", "path", s1, true}, {in, "b", "op", s2, false}, {in, "c", "both", s3, true}}, Body: body, Opts: opts, Auth: map[string]bool{}})
+							emit(Case{Params: []Param{{in, "a", "path", s1, true, false}, {in, "b", "op", s2, false, false}, {in, "c", "both", s3, true, false}}, Body: body, Opts: opts, Auth: map[string]bool{}})
+							// the same with a default on every declaration and defaults written into the request
+							emit(Case{Params: []Param{{in, "a", "path", s1, true, true}, {in, "b", "op", s2, false, true}, {in, "c", "both", s3, true, true}}, Body: body, Opts: opts, Auth: map[string]bool{}, SetDefaults: true})
 						}
 					}
 				}
@@ -553,7 +570,7 @@ func gen(t *rapid.T) Case {
 	seen := map[string]bool{}
 	for i := 0; i < n; i++ {
 		p := Param{In: rapid.SampledFrom([]string{"query", "header", "cookie"}).Draw(t, "in"), Name: rapid.SampledFrom([]string{"a", "b", "c", "d", "A", "B"}).Draw(t, "name"),
-			Level: rapid.SampledFrom([]string{"path", "op", "both"}).Draw(t, "level"), Send: rapid.SampledFrom([]string{"absent", "low", "high", "low", "high", "empty"}).Draw(t, "send"), Required: rapid.Bool().Draw(t, "required")}
+			Level: rapid.SampledFrom([]string{"path", "op", "both"}).Draw(t, "level"), Send: rapid.SampledFrom([]string{"absent", "low", "high", "low", "high", "empty"}).Draw(t, "send"), Required: rapid.Bool().Draw(t, "required"), Default: rapid.IntRange(0, 2).Draw(t, "hasdefault") == 0}
 		// names are case-sensitive outside headers: "A" next to "a" is another parameter
 		key := p.In + ":" + p.Name
 		if p.In == "header" {
@@ -574,6 +591,7 @@ func gen(t *rapid.T) Case {
 		c.Auth[s] = rapid.Bool().Draw(t, "auth:"+s)
 	}
 	c.Opts = rapid.IntRange(0, 7).Draw(t, "opts")
+	c.SetDefaults = rapid.Bool().Draw(t, "setdefaults")
 	c.NoAuth = rapid.IntRange(0, 9).Draw(t, "noauth") == 0
 	if rapid.IntRange(0, 2).Draw(t, "prelude") == 0 {
 		c.PreOpts = rapid.IntRange(1, 15).Draw(t, "preopts")
